@@ -55,7 +55,8 @@ def Added (s : St) (v : JV) (s' : St) : Prop :=
   WF s' ∧ s'.starts = s.starts ∧
   (match s.starts with
    | [] => s'.mode = .space ∧ s'.stack = [] ∧ s'.docs = v :: s.docs
-   | _ :: _ => s'.mode = .after ∧ s'.docs = s.docs ∧ addItem v s.stack = .ok s'.stack)
+   | _ :: _ => s'.mode = .after ∧ s'.docs = s.docs ∧ addItem v s.stack = .ok s'.stack) ∧
+  s'.inFast = false
 
 theorem needVal_of_valpos {s : St} (h : ValPos s) : needVal s.mode s.nextMode = true := by
   rcases h.mode with h | h <;> simp [needVal, h]
@@ -65,7 +66,7 @@ theorem needVal_of_valpos {s : St} (h : ValPos s) : needVal s.mode s.nextMode = 
 theorem added_of_add (s0 s1 : St) (v : JV) (hw0 : WF s0)
     (hsh : Shape s0.starts s0.stack true)
     (hs1 : s1.starts = s0.starts ∧ s1.stack = s0.stack ∧ s1.docs = s0.docs)
-    (hnext : s1.nextMode = .colon ∨ s1.nextMode = .after) :
+    (hnext : s1.nextMode = .colon ∨ s1.nextMode = .after) (hinf : s1.inFast = false) :
     ∃ st', ({ s1 with mode := .after } : St).add v = .ok { s1 with mode := .after, stack := st' } ∧
       Added s0 v (deliver refTables cfg1 { s1 with mode := .after, stack := st' }) := by
   obtain ⟨hst, hsk, hdoc⟩ := hs1
@@ -87,7 +88,9 @@ theorem added_of_add (s0 s1 : St) (v : JV) (hw0 : WF s0)
       exact hsa.shape hne
   have hwf := deliver_wf cfg1 _ false hpre
   simp only [Bool.false_eq_true, ↓reduceIte] at hwf
-  refine ⟨hwf, ?_, ?_⟩
+  refine ⟨hwf, ?_, ?_, ?_⟩
+  rotate_right
+  · unfold deliver; split <;> simp [hinf]
   · unfold deliver; split <;> simp [hst]
   · cases hs : s0.starts with
     | nil =>
@@ -183,6 +186,7 @@ structure InLit (m : Mode) (s0 s : St) : Prop where
   stack : s.stack = s0.stack
   docs : s.docs = s0.docs
   next : s.nextMode = .colon ∨ s.nextMode = .after
+  inFast : s.inFast = false
 
 /-- one byte inside a literal: a wrong byte is an error -/
 theorem lit_step_bad {m : Mode} {w : Bytes} {v : JV} (L : LitSpec m w v) (s : St) (x : UInt8)
@@ -226,9 +230,9 @@ theorem WF.of_core {s s' : St} (h : WF s) (hm : s'.mode = s.mode) (hn : s'.nextM
 
 theorem Added.of_core {s0 s1 s2 : St} {v : JV} (h : Added s0 v s1) (hm : s2.mode = s1.mode)
     (hn : s2.nextMode = s1.nextMode) (hs : s2.starts = s1.starts) (hk : s2.stack = s1.stack)
-    (hd : s2.docs = s1.docs) : Added s0 v s2 := by
-  obtain ⟨hw, hst, hc⟩ := h
-  refine ⟨hw.of_core hm hn hs hk, hs.trans hst, ?_⟩
+    (hd : s2.docs = s1.docs) (hf : s2.inFast = s1.inFast) : Added s0 v s2 := by
+  obtain ⟨hw, hst, hc, hi⟩ := h
+  refine ⟨hw.of_core hm hn hs hk, hs.trans hst, ?_, hf.trans hi⟩
   cases h0 : s0.starts with
   | nil => rw [h0] at hc; simp only at hc ⊢; rw [hm, hk, hd]; exact hc
   | cons x ss => rw [h0] at hc; simp only at hc ⊢; rw [hm, hk, hd]; exact hc
@@ -241,7 +245,7 @@ theorem lit_step_last {m : Mode} {w : Bytes} {v : JV} (L : LitSpec m w v) (s0 s 
   have hsh : Shape s0.starts s0.stack true := by
     have := hv.wf.shape; rw [needVal_of_valpos hv] at this; exact this
   obtain ⟨st', hadd, hadded⟩ := added_of_add s0 { s with ri := s.ri + 1 } v hv.wf hsh
-    ⟨hin.starts, hin.stack, hin.docs⟩ hin.next
+    ⟨hin.starts, hin.stack, hin.docs⟩ hin.next hin.inFast
   unfold step stepAct
   have : refTables.act s.mode x = .tokenOk := by rw [hin.mode]; exact hact
   obtain ⟨k, htok⟩ := L.tok s x hin.mode
@@ -250,7 +254,7 @@ theorem lit_step_last {m : Mode} {w : Bytes} {v : JV} (L : LitSpec m w v) (s0 s 
       .ok { s with ri := s.ri + 1, mode := Mode.after, stack := st' } := hadd
   rw [hadd']
   simp only
-  exact ⟨_, rfl, hadded.of_core rfl rfl rfl rfl rfl⟩
+  exact ⟨_, rfl, hadded.of_core rfl rfl rfl rfl rfl (by simp only; unfold deliver; split <;> simp [hin.inFast])⟩
 
 
 theorem drop_eq_getD_cons (w : Bytes) (k : Nat) (h : k < w.length) : w.drop k = w.getD k 0 :: w.drop (k + 1) := by
@@ -303,7 +307,7 @@ theorem lit_exec {m : Mode} {w : Bytes} {v : JV} (L : LitSpec m w v)
     have hact := hlet (s.ri + 1) (by omega) hk
     have hstep := lit_step_mid L s _ hin.mode rfl hact (by omega)
     have hin1 : InLit m s0 { s with ri := s.ri + 1, pos := s.pos + 1, inFast := false } :=
-      ⟨hin.mode, hin.starts, hin.stack, hin.docs, hin.next⟩
+      ⟨hin.mode, hin.starts, hin.stack, hin.docs, hin.next, rfl⟩
     obtain ⟨ih1, ih2⟩ := ih _ hin1 (by simp only; omega)
     constructor
     · intro rest
@@ -384,7 +388,7 @@ theorem exec_literal (s0 : St) (hv : ValPos s0) (b : UInt8) (m : Mode) (w : Byte
       (Spec.startsWith r w.tail = none → exec s0 (b :: r) = none) := by
     intro L hlet hlen hstep
     have hin : InLit m s0 { s0 with mode := m, ri := 0, pos := s0.pos + 1, inFast := false } :=
-      ⟨rfl, rfl, rfl, rfl, hv.wf.ctl.next⟩
+      ⟨rfl, rfl, rfl, rfl, hv.wf.ctl.next, rfl⟩
     obtain ⟨h1, h2⟩ := lit_exec L hlet s0 hv (w.length - 2) _ hin (by simp only; omega)
     have htail : w.drop (0 + 1) = w.tail := by cases w <;> rfl
     simp only [htail] at h1 h2
@@ -455,6 +459,7 @@ structure InStr (s0 s : St) (acc : Bytes) : Prop where
   stack : s.stack = s0.stack
   docs : s.docs = s0.docs
   next : s.nextMode = s0.nextMode
+  inFast : s.inFast = false
 
 theorem deliver_id (s : St) (h : expectedFin s.mode ≠ .a) : deliver refTables cfg1 s = s := by
   unfold deliver
@@ -740,7 +745,7 @@ theorem exec_chars (fuel : Nat) : ∀ (s0 s : St) (acc bs : Bytes), InStr s0 s a
                 simp only
                 have hl := hexN_length 4 0 r' u r'' hh
                 have hin2 : InStr s0 (sUni s u) (acc ++ Spec.utf8Enc u) :=
-                  ⟨rfl, by simp [sUni, hin.tmp], hin.starts, hin.stack, hin.docs, hin.next⟩
+                  ⟨rfl, by simp [sUni, hin.tmp], hin.starts, hin.stack, hin.docs, hin.next, rfl⟩
                 obtain ⟨ih1, ih2⟩ := ih s0 _ (acc ++ Spec.utf8Enc u) r'' hin2 (by simp only [List.length_cons] at hlr; omega)
                 constructor
                 · intro str rest h
@@ -755,7 +760,7 @@ theorem exec_chars (fuel : Nat) : ∀ (s0 s : St) (acc bs : Bytes), InStr s0 s a
               | some c =>
                 simp only
                 have hin2 : InStr s0 (sEscOk s c) (acc ++ [c]) :=
-                  ⟨rfl, by simp [sEscOk, hin.tmp], hin.starts, hin.stack, hin.docs, hin.next⟩
+                  ⟨rfl, by simp [sEscOk, hin.tmp], hin.starts, hin.stack, hin.docs, hin.next, rfl⟩
                 obtain ⟨ih1, ih2⟩ := ih s0 _ (acc ++ [c]) r' hin2 (by simp only [List.length_cons] at hlr; omega)
                 rw [exec_escOk s hm e c hc]
                 constructor
@@ -773,7 +778,7 @@ theorem exec_chars (fuel : Nat) : ∀ (s0 s : St) (acc bs : Bytes), InStr s0 s a
             rw [exec_cons, he]
           · simp only [hctl, ↓reduceIte]
             have hin2 : InStr s0 (sChr s b) (acc ++ [b]) :=
-              ⟨hm, by simp [sChr, hin.tmp], hin.starts, hin.stack, hin.docs, hin.next⟩
+              ⟨hm, by simp [sChr, hin.tmp], hin.starts, hin.stack, hin.docs, hin.next, rfl⟩
             obtain ⟨ih1, ih2⟩ := ih s0 _ (acc ++ [b]) r hin2 hlr
             rw [exec_cons, step_strOk s b hm ⟨hq, hs, hctl⟩]
             constructor
@@ -994,7 +999,7 @@ theorem exec_numEnd (s0 s : St) (hv : ValPos s0) (hin : InNum s0 s) (rest : Byte
     ∃ s', Added s0 s.num.asNum.toJV s' ∧ exec s rest = exec s' rest := by
   have hsh : Shape s0.starts s0.stack true := by
     have := hv.wf.shape; rw [needVal_of_valpos hv] at this; exact this
-  obtain ⟨st', hadd, hadded⟩ := added_of_add s0 s s.num.asNum.toJV hv.wf hsh ⟨hin.starts, hin.stack, hin.docs⟩ hin.next
+  obtain ⟨st', hadd, hadded⟩ := added_of_add s0 s s.num.asNum.toJV hv.wf hsh ⟨hin.starts, hin.stack, hin.docs⟩ hin.next hin.inFast
   have haddN : s.addNum = .ok { s with stack := st' } := by
     have h1 := St.add_withMode s .after s.num.asNum.toJV
     rw [hadd] at h1
